@@ -27,7 +27,7 @@ m = {
     "setup_cmd": "./setup.sh",
     "hooks": {
         "guard": "verif",
-        "enable": "no hooks are committed to /repo: cmd/vinstr rewrites the packages under test at check time from /repo's working tree (sync, sync/atomic, net.Dial, crypto/rand, context timers, go statements, channel operations, select, map ranges, runtime.SetFinalizer) and the result is supplied with `go build -overlay`; pure-function properties import /repo unmodified",
+        "enable": "no hooks are committed to /repo: cmd/vinstr rewrites the packages under test at check time from /repo's working tree (sync, sync/atomic, net.Dial, crypto/rand, context timers, go statements, channel creation and operations, select, range over maps and channels, runtime.SetFinalizer) and the result is supplied with `go build -overlay`; pure-function properties import /repo unmodified",
         "baseline_off_cmd": "cd /repo && GOFLAGS=-mod=mod go test -vet=off -count=1 ./...",
         "source_commits": [],
         "add_only": True
